@@ -23,7 +23,7 @@ var (
 )
 
 // cSources lists the C files of /repo/c that make up the library proper (no
-// tests, no CLI, no stack.c: the C stack talks to the file system directly).
+// tests, no CLI).
 func cSources(cdir string) ([]string, error) {
 	ents, err := os.ReadDir(cdir)
 	if err != nil {
@@ -32,7 +32,7 @@ func cSources(cdir string) ([]string, error) {
 	var out []string
 	for _, e := range ents {
 		n := e.Name()
-		if !strings.HasSuffix(n, ".c") || strings.HasSuffix(n, "_test.c") || n == "test_framework.c" || n == "dump.c" || n == "stack.c" {
+		if !strings.HasSuffix(n, ".c") || strings.HasSuffix(n, "_test.c") || n == "test_framework.c" || n == "dump.c" {
 			continue
 		}
 		out = append(out, filepath.Join(cdir, n))
@@ -238,6 +238,30 @@ func (m *Machine) cIntrinsic(name string, args []Val) (Val, bool) {
 			fmt.Fprintf(os.Stderr, "CDEBUG scan mode=%v n=%d out=%s\n", args[1], n, m.cDump(out, n, capn))
 		}
 		return Tuple{m.cOut(out, n, capn), goInt(n)}, true
+	case "VerifC_stack_scan": // (dir string, flags, mode int, arg []byte, idx uint64, outcap int) ([]byte, int)
+		dirO := m.cBytes(args[0], 1)
+		dirO.what = "directory name"
+		ao := m.cBytes(args[3], 1)
+		ao.what = "scan argument"
+		capn := m.cInt(args[5], "output capacity")
+		out := m.cAlloc(capn)
+		out.what = "scan output"
+		r := m.CallC(mod, "shim_stack_scan", []interface{}{LPtr{dirO, 0}, cInt(uint64(m.cInt(args[1], "flags")), 32, false), cInt(uint64(m.cInt(args[2], "mode")), 32, false),
+			LPtr{ao, 0}, args[4].(Int), LPtr{out, 0}, cInt(uint64(capn), 64, false)})
+		n := m.cConc(r, "scan result length")
+		if os.Getenv("VERIF_CDEBUG") != "" {
+			fmt.Fprintf(os.Stderr, "CDEBUG stackscan mode=%v n=%d out=%s\n", args[2], n, m.cDump(out, n, capn))
+		}
+		return Tuple{m.cOut(out, n, capn), goInt(n)}, true
+	case "VerifC_stack_op": // (dir string, flags int, blockSize uint32, op int, desc []byte) int
+		dirO := m.cBytes(args[0], 1)
+		dirO.what = "directory name"
+		ds := args[4].(Slice)
+		do := m.cBytes(ds, 0)
+		do.what = "record stream"
+		r := m.CallC(mod, "shim_stack_op", []interface{}{LPtr{dirO, 0}, cInt(uint64(m.cInt(args[1], "flags")), 32, false), cInt(uint64(m.cInt(args[2], "block size")), 32, false),
+			cInt(uint64(m.cInt(args[3], "op")), 32, false), LPtr{do, 0}, cInt(uint64(ds.len), 64, false)})
+		return m.cRet(r), true
 	case "VerifC_write": // (desc []byte, blockSize uint32, restartInterval int, flags int, min, max uint64, outcap int) ([]byte, int)
 		ds := args[0].(Slice)
 		do := m.cBytes(ds, 0)
